@@ -81,6 +81,11 @@ func seedBodies(f *fuzzFixture) map[string][]byte {
 		"fork":             f.valid(0, 1, 5, 9),
 		"bad-signature":    writeBody(5, nil, vlib.Note(vlib.CheckpointText("example.com/log", 9, make([]byte, 32), nil), vlib.NewKey("logkey", "stranger").SigLine(vlib.CheckpointText("example.com/log", 9, make([]byte, 32), nil))), "harness"),
 		"unknown-origin":   writeBody(0, nil, vlib.Note("nobody.example/log\n1\nAAAAAAAAAAAAAAAAAAAAAAAAAAAAAAAAAAAAAAAAAAA=\n", "— k AAAAAAAAAA==\n"), "harness"),
+		"proof-63-lines":   writeBody(5, manyHashes(63), f.cp(0, 0, 9), "harness"),
+		"proof-64-lines":   writeBody(5, manyHashes(64), f.cp(0, 0, 9), "harness"),
+		"proof-65-lines":   writeBody(5, manyHashes(65), f.cp(0, 0, 9), "harness"),
+		"proof-200-lines":  writeBody(5, manyHashes(200), f.cp(0, 0, 9), "harness"),
+		"proof-1-byte-x300": writeBody(5, manyShort(300), f.cp(0, 0, 9), "harness"),
 		"empty":            {},
 		"only-old":         []byte("old 0\n"),
 		"huge-old":         []byte("old 18446744073709551615\n\nexample.com/log\n18446744073709551615\nAAAA\n\n— logkey AAAAAAAA\n"),
@@ -100,6 +105,22 @@ func seedBodies(f *fuzzFixture) map[string][]byte {
 		"neg-size":         writeBody(5, nil, signedText(f, "example.com/log\n-1\nAAAA\n"), "harness"),
 	}
 	return s
+}
+
+func manyHashes(n int) [][]byte {
+	var hs [][]byte
+	for i := 0; i < n; i++ {
+		hs = append(hs, bytes.Repeat([]byte{byte(i)}, 32))
+	}
+	return hs
+}
+
+func manyShort(n int) [][]byte {
+	var hs [][]byte
+	for i := 0; i < n; i++ {
+		hs = append(hs, []byte{byte(i)})
+	}
+	return hs
 }
 
 func signedText(f *fuzzFixture, text string) []byte {
@@ -237,7 +258,21 @@ func mutateBytes(rt *rapid.T, b []byte) []byte {
 			continue
 		}
 		pos := rapid.IntRange(0, len(b)-1).Draw(rt, "pos")
-		switch rapid.IntRange(0, 6).Draw(rt, "mk") {
+		switch rapid.IntRange(0, 7).Draw(rt, "mk") {
+		case 7:
+			// repeat one line many times (e.g. a proof line: pushes counts past any fixed bound)
+			start := bytes.LastIndexByte(b[:pos], '\n') + 1
+			end := bytes.IndexByte(b[pos:], '\n')
+			if end < 0 {
+				end = len(b)
+			} else {
+				end += pos + 1
+			}
+			line := append([]byte{}, b[start:end]...)
+			k := rapid.SampledFrom([]int{1, 2, 62, 63, 64, 65, 100}).Draw(rt, "repeat")
+			if len(line) > 0 && len(line)*k < 15000 {
+				b = append(b[:end], append(bytes.Repeat(line, k), b[end:]...)...)
+			}
 		case 0:
 			b[pos] ^= 1 << uint(rapid.IntRange(0, 7).Draw(rt, "bit"))
 		case 1:
